@@ -338,9 +338,13 @@ def _run_reject(case):
 # ------------------------------------------------------------------------------------------------ deg0
 
 
-def _deg0_tolerance(spec, agg, J, tJ, t, pow2, seed):
+def _deg0_tolerance(spec, agg, J, tJ, t, pow2, seed, r64=None, rt64=None):
     """Absolute tolerance on max|A(tJ) - t A(J)| derived from rounding/conditioning; None = outside the clause
-    (side condition of the statement, or numerically ambiguous discrete decision).  See the comments."""
+    (side condition of the statement, or numerically ambiguous discrete decision).  See the comments.
+    r64 / rt64: the observed A(J) and A(tJ) as float64 arrays (needed for MGDA's sub-optimality bound).
+    Also used with t = 1 by C10 (tJ = a row permutation of J evaluated by the permuted aggregator): every bound
+    below only depends on row norms, singular values, |w|_1 and the Gramian's conditioning, which are permutation
+    invariant, and re-ordering the rows re-orders the floating-point sums like a perturbation of relative size eps."""
     name = spec["name"]
     e = eps_of(J)
     m, n = J.shape
@@ -378,9 +382,8 @@ def _deg0_tolerance(spec, agg, J, tJ, t, pow2, seed):
         # general t: rounding may flip an argmin between (nearly) equal entries of G a, after which the paths
         # differ; both outputs are points x of the hull, and |x - x*|^2 <= |x|^2 - |x*|^2 =: h
         mn2, _ = min_norm_enum(tJ64)
-        torch.manual_seed(seed)
-        x1 = to64(agg(tJ))
-        x2 = to64(agg(J)) * t
+        x1 = rt64
+        x2 = r64 * t
         slack = 16.0 * m * n * e * S * S
         h1 = max(0.0, float(x1 @ x1) - mn2) + slack
         h2 = max(0.0, float(x2 @ x2) - mn2) + slack
@@ -479,7 +482,7 @@ def _run_deg0(case):
     except Exception as e:
         return fail("C11.finite", f"{spec['name']} raised {type(e).__name__}: {str(e)[:120]}", sig, True,
                     observed="exception", expected="finite vector")
-    tol = _deg0_tolerance(spec, agg, J, tJ, t, pow2, seed)
+    tol = _deg0_tolerance(spec, agg, J, tJ, t, pow2, seed, to64(r), to64(rt))
     if tol is None:
         return {"ok": True, "sig": sig, "nontrivial": False, "note": "outside the clause"}
     diff = float((rt.double() - t * r.double()).abs().max())
